@@ -420,7 +420,7 @@ func (r *runner) exhaustive(maxN int, deadline time.Time) bool {
 			for variant := 0; variant < 4; variant++ {
 				kind := []string{"heap", "pq"}[variant/2]
 				viaInit := variant%2 == 1
-				base := Case{Kind: kind, Ord: "nat", Ctor: hc.Ctors[(bases+variant)%2], U: n + 1}
+				base := Case{Kind: kind, Ord: "nat", Ctor: hc.Ctors[(bases+variant)%len(hc.Ctors)], U: n + 1}
 				for i, p := range seq {
 					switch {
 					case kind == "heap" && viaInit:
@@ -462,7 +462,7 @@ func (r *runner) exhaustive(maxN int, deadline time.Time) bool {
 // randomScenario: a random history as the state, random position, random mid op, then Nexts.
 func randomScenario(rd *vlib.Rand, res *vlib.Result) Case {
 	pq := rd.Bool()
-	c := Case{Kind: "heap", Ord: hc.Orders[rd.Intn(3)], Ctor: hc.Ctors[rd.Intn(2)], U: rd.Range(3, 12)}
+	c := Case{Kind: "heap", Ord: hc.Orders[rd.Intn(3)], Ctor: hc.PickCtor(rd), U: rd.Range(3, 12)}
 	if pq {
 		c.Kind = "pq"
 	}
